@@ -214,12 +214,14 @@ type model struct {
 	// pend[name]: periodic mode, the value a graceful stop must flush (only while certain)
 	pend       map[string]val
 	upstreamOf map[string]string
+	// deletedAck[name]: the last thing acknowledged about name is its deletion (no save attempted since)
+	deletedAck map[string]bool
 	// localWasKnown: known[] as it was when the flush in progress started (for delete-upstream concurrent with it)
 	localWasKnown map[string]bool
 }
 
 func newModel(seq sequence, snap map[string]stored) *model {
-	m := &model{mode: seq.Mode, shard: seq.Shard, allowed: map[string]valset{}, local: map[string]valset{}, known: map[string]bool{}, pend: map[string]val{}, upstreamOf: map[string]string{}}
+	m := &model{mode: seq.Mode, shard: seq.Shard, allowed: map[string]valset{}, local: map[string]valset{}, known: map[string]bool{}, pend: map[string]val{}, upstreamOf: map[string]string{}, deletedAck: map[string]bool{}}
 	for n, st := range snap {
 		m.allowed[n] = valset{st.Val: true}
 		m.upstreamOf[n] = st.Upstream
@@ -263,6 +265,7 @@ func (m *model) afterLoad(snap map[string]stored) {
 
 func (m *model) afterSave(o op, acked bool) {
 	v := val{o.Ver, o.Ver}
+	delete(m.deletedAck, o.Name)
 	switch {
 	case acked && m.mode == "write-through":
 		m.allowed[o.Name] = valset{v: true}
@@ -287,6 +290,9 @@ func (m *model) afterDeleteName(n string, acked, mustHaveDeleted bool) {
 		m.allow(n)[absent] = true
 	}
 	if acked {
+		if mustHaveDeleted {
+			m.deletedAck[n] = true
+		}
 		m.local[n] = valset{absent: true}
 		m.known[n] = false
 		delete(m.pend, n)
@@ -655,7 +661,7 @@ func execute(seq sequence, faults []fault, emulateNilDeref bool) runResult {
 		switch {
 		case actual == absent:
 			add("acknowledged-condition-not-persisted", fmt.Sprintf("%s is absent from the API; permitted: %s", n, al))
-		case len(al) == 1 && al[absent]:
+		case (len(al) == 1 && al[absent]) || (m.deletedAck[n] && actual.Spec < 9000):
 			add("deleted-condition-persists", fmt.Sprintf("%s=%s is still in the API after its acknowledged deletion", n, actual))
 		default:
 			add("acknowledged-condition-not-persisted", fmt.Sprintf("the API holds %s=%s; permitted: %s", n, actual, al))
